@@ -1285,6 +1285,76 @@ def opc10_handler_queue_order(ctx: Ctx) -> None:
 
 
 # --------------------------------------------------------------------- OPC-9 UNPACK_EX oparg decoding
+class _StopEval(BaseException):
+    def __init__(self, k):
+        self.k = k
+
+
+def opc3c_prologue_eval(ctx: Ctx) -> None:
+    """OPC-3c for every with-statement layout each compiler emits (FACTS: prologues, 30-34 layouts per interpreter, each sync and
+    async) the instruction loop of analyze_with_blocks hands describe_assignment_target exactly the index of the first
+    instruction after the prologue.  The loop body is evaluated (engine MINI) under that interpreter's sys.version_info on a
+    synthetic instruction list: some leading instructions, the layout's prologue (also with one and two EXTENDED_ARG prefixes
+    in front of its LOAD_CONST -- a code object whose None constant has index >= 256), a store.  Leading instructions include an
+    EXTENDED_ARG four places before the with-opcode, which only an async prologue may look at"""
+    from types import SimpleNamespace as NS
+    from ..minieval import Mini, Raised, Unsupported
+    mod = ctx.P.mod("_lowlevel")
+    fn = mod.fn("analyze_with_blocks")
+    loops = [l for l in walk_scope(fn) if isinstance(l, ast.For) and any(isinstance(n, ast.If) and any(x in ("SETUP_WITH", "BEFORE_WITH") for _, nm in opname_literals(n.test) for x in nm) for n in ast.walk(l))]
+    if len(loops) != 1 or not (isinstance(loops[0].target, ast.Tuple) and len(loops[0].target.elts) == 2):
+        ctx.R.undecided("OPC-3c", "the instruction loop of analyze_with_blocks was not found as `for idx, insn in enumerate(insns)`")
+        return
+    loop = loops[0]
+    ivar, nvar = norm(loop.target.elts[0]), norm(loop.target.elts[1])
+    helpers = {h.name: h for h in mod.tree.body if isinstance(h, ast.FunctionDef) and h.name not in ("describe_assignment_target", "_parse_exception_table")}
+    n_ok = 0
+    for v in sorted(ctx.V.all, key=lambda s_: tuple(map(int, s_.split(".")))):
+        IF = ctx.F["interp"][v]
+        vi = tuple(IF["version_info"])
+        for key, variants in sorted(IF["prologues"].items()):
+            for seq in variants:
+                for n_ext in (0, 1, 2):
+                    if n_ext and "LOAD_CONST" not in seq:
+                        continue
+                    pro = []
+                    for o_ in seq:
+                        if o_ == "LOAD_CONST":
+                            pro.extend(["EXTENDED_ARG"] * n_ext)
+                        pro.append(o_)
+                    for pre in (["RESUME", "LOAD_NAME", "PUSH_NULL", "NOP"], ["EXTENDED_ARG", "LOAD_NAME", "NOP", "NOP"]):
+                        names = pre + pro + ["STORE_FAST", "NOP", "NOP", "LOAD_CONST", "RETURN_VALUE"]
+                        insns = [NS(opname=o_, offset=2 * i, starts_line=None, argval=2 * len(names), arg=0, argrepr="", is_jump_target=False) for i, o_ in enumerate(names)]
+                        idx = len(pre)
+
+                        def stop(_insns, k):
+                            raise _StopEval(k)
+                        env = {"sys": NS(version_info=vi, implementation=NS(name="cpython")), "insns": insns, ivar: idx, nvar: insns[idx], "start_to_handler": [0] * (2 * len(names) + 2),
+                               "with_block_info": [0] * (4 * len(names) + 4), "current_line": -1, "code": NS()}
+                        m = Mini(env, dict(helpers), {"describe_assignment_target": stop, "len": len})
+                        got = None
+                        try:
+                            for st in loop.body:
+                                m.stmt(st)
+                        except _StopEval as e_:
+                            got = e_.k
+                        except (Unsupported, Raised) as ex:
+                            ctx.R.undecided("OPC-3c", f"{v} {key}: the loop body is outside the evaluator's fragment: {ex}")
+                            return
+                        want = idx + len(pro)
+                        if got == want:
+                            n_ok += 1
+                        else:
+                            what = "no with-statement is recognised at all" if got is None else f"index +{got - idx} is decoded as the start of the `as` target"
+                            ctx.R.fail("OPC-3c", mod, loop, f"CPython {v}, layout {key}" + (f" with {n_ext} EXTENDED_ARG before LOAD_CONST None" if n_ext else "") + (", an EXTENDED_ARG four places before the with-opcode" if pre[0] == "EXTENDED_ARG" else "")
+                                       + f": the compiler's prologue is {pro} ({len(pro)} instructions), so the `as` target starts at +{len(pro)}; {what}: varname / the handler the block is keyed by are taken from the wrong instruction",
+                                       construct=f"{v} {key}: target at +{None if got is None else got - idx} instead of +{len(pro)}")
+                            return
+    if n_ok < 100:
+        raise AnalysisError(f"OPC-3c: only {n_ok} layouts evaluated")
+    ctx.R.ok("OPC-3c", f"{n_ok} (interpreter, layout, EXTENDED_ARG count, leading context) cases: the `as` target is decoded from the first instruction after the prologue", "engine MINI over FACTS prologues")
+
+
 def opc11_step_semantics(ctx: Ctx) -> None:
     """OPC-11 each case of the `as`-target decoder has the stack effect of the opcode it stands for, operand order included.
     The loop body of next_target is evaluated abstractly (engine MINI: symbolic operands on the decoder's list, the integers
